@@ -687,3 +687,35 @@ def eam_expected_metadata(model, species):
 
 
 ZERO = {"k": "form", "name": "zero", "p": []}
+
+
+def rename_symbols(model, mapping):
+  """Rename custom forms / table forms of a model (definitions, node references, formula calls)."""
+  m = copy.deepcopy(model)
+
+  def rexpr(e):
+    if isinstance(e, list):
+      if e and e[0] == "call" and e[1] in mapping:
+        e[1] = mapping[e[1]]
+      for x in e:
+        rexpr(x)
+
+  def rnode(n):
+    if isinstance(n, dict):
+      if n.get("k") in ("custom", "table") and n.get("name") in mapping:
+        n["name"] = mapping[n["name"]]
+      for v in n.values():
+        rnode(v)
+    elif isinstance(n, list):
+      for v in n:
+        rnode(v)
+
+  for f in m.get("forms") or []:
+    f["name"] = mapping.get(f["name"], f["name"])
+    rexpr(f["expr"])
+  for t in m.get("tables") or []:
+    t["name"] = mapping.get(t["name"], t["name"])
+  for key in ("pair", "embed", "density", "dipole", "quadrupole"):
+    for ent in m.get(key) or []:
+      rnode(ent[-1])
+  return m
